@@ -20,6 +20,7 @@ var (
 	errIncompatibleVersion    = errors.New("incompatible SIF version")
 	errInvalidDescriptorCount = errors.New("invalid descriptor count")
 	errInvalidDescriptor      = errors.New("invalid descriptor")
+	errInvalidDescriptorTable = errors.New("invalid descriptor table offset")
 )
 
 // isValidSif looks at key fields from the global header to assess SIF validity.
@@ -66,6 +67,11 @@ func loadContainer(rw ReadWriter) (*FileImage, error) {
 
 	if f.h.DescriptorsTotal < 0 {
 		return nil, errInvalidDescriptorCount
+	}
+
+	// A negative offset is not safe to pass on to io.SectionReader.
+	if f.h.DescriptorsOffset < 0 {
+		return nil, errInvalidDescriptorTable
 	}
 
 	// Read descriptors one at a time, so that memory use is bounded by the size of the image
